@@ -189,7 +189,7 @@ theorem genInt_spec (rs : Cons) (i : Int) (hd : intDom rs i = true) :
     ∧ (intTests rs = false → inCons rs i = true) := by
   unfold intDom at hd
   simp only [Bool.and_eq_true, Bool.or_eq_true, Bool.not_eq_true', bne_iff_ne, ne_eq] at hd
-  obtain ⟨⟨⟨⟨hne, hsign⟩, hrep⟩, hmix⟩, hdrop⟩ := hd
+  obtain ⟨⟨⟨hne, hrep⟩, hmix⟩, hdrop⟩ := hd
   have hne0 : rs ≠ [] := by intro h; simp [h] at hne
   have hspec := emitRange_spec rs (intNs rs) none i (intNs_le rs i hrep) (by intro e h; cases h) hne0 hmix
   unfold genInt intTests
@@ -205,8 +205,7 @@ theorem genInt_spec (rs : Cons) (i : Int) (hd : intDom rs i = true) :
   · have hdr' : dropped rs = false := by simpa using hdr
     have hdr2 : ((overallLo rs).isNone && (overallHi rs).isNone) = false := hdr'
     simp only [hdr2, Bool.false_eq_true, if_false, hdr', Bool.not_false, Bool.true_and]
-    have hs0 : (nativeLongSign rs == 0) = false := by simpa using hsign
-    simp only [hs0, Bool.false_eq_true, if_false, readInt_ok rs i hrep]
+    simp only [readInt_ok rs i hrep]
     unfold codeAccepts at hspec
     have hns : (if nativeLongSign rs ≥ 0 then some (0:Int) else none) = intNs rs := rfl
     simp only [hns]
@@ -985,23 +984,20 @@ theorem firstFail_ok_iff (f : Val → Verdict) (p : Val → Bool) (vs : List Val
         | false => rfl
         | true => rw [hv.mpr hp] at hf; cases hf
       simp [this]
-    | selfloop =>
-      have : p v = false := by
-        cases hp : p v with
-        | false => rfl
-        | true => rw [hv.mpr hp] at hf; cases hf
-      simp [this]
 
 /-! ### leaves of the main induction -/
 
-theorem int_descr_iff (nm : String) (rs : Cons) (i : Int) (hd : intDom rs i = true) (ht : intTests rs = true) :
-    ofGen nm .selfloop .ok (genInt rs i) = .ok ↔ inCons rs i = true := by
-  rw [(genInt_spec rs i hd).1]
-  simp only [ht, if_true]
-  cases inCons rs i <;> simp [ofGen]
+theorem int_descr_iff (nm : String) (rs : Cons) (i : Int) (hd : intDom rs i = true) :
+    ofGen nm .ok .ok (genInt rs i) = .ok ↔ inCons rs i = true := by
+  obtain ⟨h1, h2⟩ := genInt_spec rs i hd
+  rw [h1]
+  cases ht : intTests rs with
+  | true =>
+    simp only [if_true]
+    cases inCons rs i <;> simp [ofGen]
+  | false => simp [ofGen, h2 ht]
 
-theorem int_member_iff (id : String) (rs : Cons) (i : Int) (hd : intDom rs i = true)
-    (hu : (fitsLong rs != .ulong || intTests rs) = true) :
+theorem int_member_iff (id : String) (rs : Cons) (i : Int) (hd : intDom rs i = true) :
     memberSel id (.int (some rs)) (.int i) (occChk id (.int (some rs)) (.int i)) = .ok ↔ inCons rs i = true := by
   obtain ⟨h1, h2⟩ := genInt_spec rs i hd
   simp only [memberSel, occChk]
@@ -1012,45 +1008,14 @@ theorem int_member_iff (id : String) (rs : Cons) (i : Int) (hd : intDom rs i = t
     cases inCons rs i <;> simp [ofGen]
   | false =>
     have hin := h2 ht
-    simp only [ht, Bool.or_false, bne_iff_ne, ne_eq] at hu
-    have : (fitsLong rs == IntRepr.ulong) = false := by simpa using hu
-    simp [ofGen, this, hin]
+    cases hu : (fitsLong rs == IntRepr.ulong) <;> simp [ofGen, hin]
 
-theorem str_descr_iff (nm : String) (k : StrKind) (size alpha : Option Cons) (bs : List Nat) (u : Nat)
-    (hd : strDom k size alpha bs u = true)
-    (ht : ((size.isNone && alpha.isNone) || strTests k size) = true) :
-    (if size.isNone && alpha.isNone then builtinStr k nm bs u
-     else ofGen nm .selfloop .ok (genStr k size alpha bs u)) = .ok ↔ strSat k size alpha bs u = true := by
-  by_cases hnc : (size.isNone && alpha.isNone) = true
-  · simp only [hnc, if_true]
-    simp only [Bool.and_eq_true, Option.isNone_iff_eq_none] at hnc
-    obtain ⟨hs, ha⟩ := hnc
-    subst hs; subst ha
-    exact builtinStr_spec k nm none bs u hd rfl
-  · have hnc' : (size.isNone && alpha.isNone) = false := by
-      cases h : (size.isNone && alpha.isNone) with
-      | true => exact absurd h hnc
-      | false => rfl
-    simp only [hnc', Bool.false_eq_true, if_false]
-    simp only [hnc', Bool.false_or] at ht
-    obtain ⟨h1, h2, h3⟩ := genStr_spec k size alpha bs u hd
-    have hnot : genStr k size alpha bs u ≠ .noTest := by
-      intro h
-      obtain ⟨hk, hkept⟩ := h3 h
-      rcases hk with rfl | rfl <;> simp [strTests, hkept] at ht
-    cases hsat : strSat k size alpha bs u with
-    | true =>
-      rcases h1 hsat with h | h
-      · simp [h, ofGen]
-      · exact absurd h hnot
-    | false =>
-      obtain ⟨w, hw⟩ := h2 hsat
-      simp [hw, ofGen]
-
-theorem str_member_iff (id : String) (k : StrKind) (size alpha : Option Cons) (bs : List Nat) (u : Nat)
+/-- the checker built from the generated test with the skeleton checker (reporting as `nm`) as
+    fall back — the shape of both the type-level and the member-level string checker -/
+theorem str_chk_iff (nm : String) (k : StrKind) (size alpha : Option Cons) (bs : List Nat) (u : Nat)
     (hd : strDom k size alpha bs u = true) :
-    (if size.isNone && alpha.isNone then builtinStr k (skelName k) bs u
-     else ofGen (skelName k) (builtinStr k (skelName k) bs u) .ok (genStr k size alpha bs u)) = .ok
+    (if size.isNone && alpha.isNone then builtinStr k nm bs u
+     else ofGen nm (builtinStr k nm bs u) .ok (genStr k size alpha bs u)) = .ok
       ↔ strSat k size alpha bs u = true := by
   by_cases hnc : (size.isNone && alpha.isNone) = true
   · simp only [hnc, if_true]
@@ -1089,6 +1054,20 @@ theorem str_member_iff (id : String) (k : StrKind) (size alpha : Option Cons) (b
       exact builtinStr_spec k _ size bs u hd hkept
 
 
+theorem str_descr_iff (nm : String) (k : StrKind) (size alpha : Option Cons) (bs : List Nat) (u : Nat)
+    (hd : strDom k size alpha bs u = true) :
+    (if size.isNone && alpha.isNone then builtinStr k nm bs u
+     else ofGen nm (builtinStr k nm bs u) .ok (genStr k size alpha bs u)) = .ok ↔ strSat k size alpha bs u = true :=
+  str_chk_iff nm k size alpha bs u hd
+
+theorem str_member_iff (_id : String) (k : StrKind) (size alpha : Option Cons) (bs : List Nat) (u : Nat)
+    (hd : strDom k size alpha bs u = true) :
+    (if size.isNone && alpha.isNone then builtinStr k (skelName k) bs u
+     else ofGen (skelName k) (builtinStr k (skelName k) bs u) .ok (genStr k size alpha bs u)) = .ok
+      ↔ strSat k size alpha bs u = true :=
+  str_chk_iff (skelName k) k size alpha bs u hd
+
+
 /-! ### the main induction -/
 
 theorem memberSel_noOwn (id : String) (t : Ty) (v : Val) (occ : Verdict) (h : hasOwn t = false) :
@@ -1113,45 +1092,44 @@ theorem occChk_list (id : String) (s : Bool) (size : Option Cons) (elem : Ty) (v
   simp [occChk]
 
 mutual
-theorem descr_iff : ∀ (t : Ty) (nm : String) (alias : Bool) (v : Val), domDescr alias t v = true →
-    (descrChk nm alias t v = .ok ↔ satisfies t v = true)
-  | .named n t, nm, alias, v, hd => by
-      have h := descr_iff t nm true v (by simpa [domDescr] using hd)
+theorem descr_iff : ∀ (t : Ty) (nm : String) (v : Val), domDescr t v = true →
+    (descrChk nm t v = .ok ↔ satisfies t v = true)
+  | .named n t, nm, v, hd => by
+      have h := descr_iff t nm v (by simpa [domDescr] using hd)
       simpa [descrChk, satisfies] using h
-  | .bool, nm, alias, v, hd => by cases v <;> simp [descrChk, satisfies]
-  | .null, nm, alias, v, hd => by cases v <;> simp [descrChk, satisfies]
-  | .enumerated, nm, alias, v, hd => by cases v <;> simp [descrChk, satisfies]
-  | .int none, nm, alias, v, hd => by cases v <;> simp [descrChk, satisfies]
-  | .int (some rs), nm, alias, v, hd => by
+  | .bool, nm, v, hd => by cases v <;> simp [descrChk, satisfies]
+  | .null, nm, v, hd => by cases v <;> simp [descrChk, satisfies]
+  | .enumerated, nm, v, hd => by cases v <;> simp [descrChk, satisfies]
+  | .int none, nm, v, hd => by cases v <;> simp [descrChk, satisfies]
+  | .int (some rs), nm, v, hd => by
       cases v <;> try (simp [descrChk, satisfies]; done)
       rename_i i
-      simp only [domDescr, Bool.and_eq_true] at hd
-      simpa [descrChk, satisfies, inOpt] using int_descr_iff nm rs i hd.1 hd.2
-  | .str k size alpha, nm, alias, v, hd => by
+      simp only [domDescr] at hd
+      simpa [descrChk, satisfies, inOpt] using int_descr_iff nm rs i hd
+  | .str k size alpha, nm, v, hd => by
       simp only [descrChk, satisfies, domDescr] at hd ⊢
       cases hp : strValue k v with
       | none => simp
       | some p =>
         obtain ⟨bs, u⟩ := p
         simp only [hp] at hd ⊢
-        simp only [Bool.and_eq_true] at hd
-        exact str_descr_iff nm k size alpha bs u hd.1 hd.2
-  | .seq ms, nm, alias, v, hd => by
+        exact str_descr_iff nm k size alpha bs u hd
+  | .seq ms, nm, v, hd => by
       cases v <;> try (simp [descrChk, satisfies]; done)
       rename_i fs
-      simp only [domDescr, Bool.and_eq_true] at hd
-      simpa [descrChk, satisfies] using seq_iff ms nm fs hd.1 hd.2
-  | .set ms, nm, alias, v, hd => by
+      simp only [domDescr] at hd
+      simpa [descrChk, satisfies] using seq_iff ms nm fs hd
+  | .set ms, nm, v, hd => by
       cases v <;> try (simp [descrChk, satisfies]; done)
       rename_i fs
-      simp only [domDescr, Bool.and_eq_true] at hd
-      simpa [descrChk, satisfies] using set_iff ms nm fs hd.1 hd.2
-  | .choice ms, nm, alias, v, hd => by
+      simp only [domDescr] at hd
+      simpa [descrChk, satisfies] using set_iff ms nm fs hd
+  | .choice ms, nm, v, hd => by
       cases v <;> try (simp [descrChk, satisfies]; done)
       rename_i sel v
       simp only [domDescr] at hd
       simpa [descrChk, satisfies] using alt_iff ms nm sel v hd
-  | .listOf s size elem, nm, alias, v, hd => by
+  | .listOf s size elem, nm, v, hd => by
       cases v <;> try (simp [descrChk, satisfies]; done)
       rename_i vs
       simp only [domDescr, Bool.and_eq_true, List.all_eq_true] at hd
@@ -1160,21 +1138,24 @@ theorem descr_iff : ∀ (t : Ty) (nm : String) (alias : Bool) (v : Val), domDesc
           ↔ vs.all (fun v => satisfies elem v) = true :=
         firstFail_ok_iff _ _ vs (fun v hv => member_iff elem (elemId elem) v (hel v hv))
       simp only [descrChk, satisfies]
-      cases alias <;> cases size
-      · simp [hwalk, inOpt]
-      · simp at hsz
-      · simp [hwalk, inOpt]
-      · rename_i rs
-        simp only [Bool.and_eq_true] at hsz
-        obtain ⟨h1, h2⟩ := genSize_spec rs vs.length hsz.1
-        simp only [h1, hsz.2, if_true, inOpt, Bool.and_eq_true]
-        cases hin : inCons rs (vs.length : Int) with
-        | true => simp [ofGen, hwalk]
-        | false => simp [ofGen]
+      cases size with
+      | none => simp [hwalk, inOpt]
+      | some rs =>
+        simp only [sizeOptDom] at hsz
+        obtain ⟨h1, h2⟩ := genSize_spec rs vs.length hsz
+        simp only [h1, inOpt, Bool.and_eq_true]
+        cases ht : sizeTests rs with
+        | true =>
+          simp only [if_true]
+          cases hin : inCons rs (vs.length : Int) with
+          | true => simp [ofGen, hwalk]
+          | false => simp [ofGen]
+        | false =>
+          simp [ofGen, hwalk, h2 ht]
 theorem member_iff : ∀ (t : Ty) (id : String) (v : Val), domMember t v = true →
     (memberSel id t v (occChk id t v) = .ok ↔ satisfies t v = true)
   | .named n t, id, v, hd => by
-      have h := descr_iff t n false v (by simpa [domMember] using hd)
+      have h := descr_iff t n v (by simpa [domMember] using hd)
       rw [memberSel_noOwn id _ v _ rfl]
       simpa [occChk, satisfies] using h
   | .bool, id, v, hd => by cases v <;> simp [memberSel, occChk, satisfies]
@@ -1184,8 +1165,8 @@ theorem member_iff : ∀ (t : Ty) (id : String) (v : Val), domMember t v = true 
   | .int (some rs), id, v, hd => by
       cases v <;> try (simp [memberSel, occChk, satisfies]; done)
       rename_i i
-      simp only [domMember, Bool.and_eq_true] at hd
-      simpa [satisfies, inOpt] using int_member_iff id rs i hd.1 hd.2
+      simp only [domMember] at hd
+      simpa [satisfies, inOpt] using int_member_iff id rs i hd
   | .str k size alpha, id, v, hd => by
       simp only [memberSel, occChk, satisfies, domMember] at hd ⊢
       cases hp : strValue k v with
@@ -1198,14 +1179,14 @@ theorem member_iff : ∀ (t : Ty) (id : String) (v : Val), domMember t v = true 
       rw [memberSel_noOwn id _ v _ rfl]
       cases v <;> try (simp [occChk, satisfies]; done)
       rename_i fs
-      simp only [domMember, Bool.and_eq_true] at hd
-      simpa [occChk, satisfies] using seq_iff ms id fs hd.1 hd.2
+      simp only [domMember] at hd
+      simpa [occChk, satisfies] using seq_iff ms id fs hd
   | .set ms, id, v, hd => by
       rw [memberSel_noOwn id _ v _ rfl]
       cases v <;> try (simp [occChk, satisfies]; done)
       rename_i fs
-      simp only [domMember, Bool.and_eq_true] at hd
-      simpa [occChk, satisfies] using set_iff ms id fs hd.1 hd.2
+      simp only [domMember] at hd
+      simpa [occChk, satisfies] using set_iff ms id fs hd
   | .choice ms, id, v, hd => by
       rw [memberSel_noOwn id _ v _ rfl]
       cases v <;> try (simp [occChk, satisfies]; done)
@@ -1238,76 +1219,55 @@ theorem member_iff : ∀ (t : Ty) (id : String) (v : Val), domMember t v = true 
         | false =>
           simp [ofGen, hwalk, h2 ht]
 theorem seq_iff : ∀ (ms : Members) (nm : String) (fs : List (String × Val)),
-    seqShape ms = true → domMembers ms fs = true →
+    domMembers ms fs = true →
     (walkSeq nm ms fs = .ok ↔ satisfiesMembers ms fs = true)
-  | .nil, nm, fs, _, _ => by simp [walkSeq, satisfiesMembers]
-  | .cons id opt t rest, nm, fs, hs, hd => by
+  | .nil, nm, fs, _ => by simp [walkSeq, satisfiesMembers]
+  | .cons id opt t rest, nm, fs, hd => by
       simp only [domMembers, Bool.and_eq_true] at hd
       obtain ⟨hdm, hdr⟩ := hd
+      have ih := seq_iff rest nm fs hdr
       simp only [walkSeq, satisfiesMembers, Bool.and_eq_true]
       cases hl : lookupField id fs with
       | none =>
         cases opt with
         | false => simp
-        | true =>
-          have hs' : seqShape rest = true := by
-            cases rest with
-            | nil => rfl
-            | cons _ _ _ _ => simp only [seqShape, Bool.and_eq_true] at hs; exact hs.2
-          simpa using seq_iff rest nm fs hs' hdr
+        | true => simpa using ih
       | some v =>
         simp only [hl] at hdm
         have hm := member_iff t id v hdm
-        by_cases ho : hasOwn t = true
-        · simp only [ho, if_true]
-          have hs' : seqShape rest = true := by
-            cases rest with
-            | nil => rfl
-            | cons _ _ _ _ => simp only [seqShape, Bool.and_eq_true] at hs; exact hs.2
-          have ih := seq_iff rest nm fs hs' hdr
-          cases hv : memberSel id t v (occChk id t v) with
-          | ok => simp [hm.mp hv, ih]
-          | fail n w =>
-            have : satisfies t v = false := by
-              cases hsat : satisfies t v with
-              | false => rfl
-              | true => rw [hm.mpr hsat] at hv; cases hv
-            simp [this]
-          | selfloop =>
-            have : satisfies t v = false := by
-              cases hsat : satisfies t v with
-              | false => rfl
-              | true => rw [hm.mpr hsat] at hv; cases hv
-            simp [this]
-        · have ho' : hasOwn t = false := by
-            cases h : hasOwn t with
-            | true => exact absurd h ho
+        cases hv : memberSel id t v (occChk id t v) with
+        | ok => simp [hv, hm.mp hv, ih]
+        | fail n w =>
+          have : satisfies t v = false := by
+            cases hsat : satisfies t v with
             | false => rfl
-          -- only the last component may lack constraints of its own
-          have hrest : rest = .nil := by
-            cases rest with
-            | nil => rfl
-            | cons _ _ _ _ => simp [seqShape, ho'] at hs
-          subst hrest
-          rw [memberSel_noOwn id t v _ ho'] at hm
-          simp [ho', hm, satisfiesMembers]
+            | true => rw [hm.mpr hsat] at hv; cases hv
+          simp [hv, this]
 theorem set_iff : ∀ (ms : Members) (nm : String) (fs : List (String × Val)),
-    setShape ms = true → domMembers ms fs = true →
+    domMembers ms fs = true →
     (walkSet nm ms fs = .ok ↔ satisfiesMembers ms fs = true)
-  | .nil, nm, fs, _, _ => by simp [walkSet, satisfiesMembers]
-  | .cons id opt t rest, nm, fs, hs, hd => by
-      have hrest : rest = .nil := by
-        cases rest with
-        | nil => rfl
-        | cons _ _ _ _ => simp [setShape] at hs
-      subst hrest
+  | .nil, nm, fs, _ => by simp [walkSet, satisfiesMembers]
+  | .cons id opt t rest, nm, fs, hd => by
       simp only [domMembers, Bool.and_eq_true] at hd
-      simp only [walkSet, satisfiesMembers, Bool.and_true]
+      obtain ⟨hdm, hdr⟩ := hd
+      have ih := set_iff rest nm fs hdr
+      simp only [walkSet, satisfiesMembers, Bool.and_eq_true]
       cases hl : lookupField id fs with
-      | none => cases opt <;> simp
+      | none =>
+        cases opt with
+        | false => simp
+        | true => simpa using ih
       | some v =>
-        simp only [hl] at hd
-        exact member_iff t id v hd.1
+        simp only [hl] at hdm
+        have hm := member_iff t id v hdm
+        cases hv : memberSel id t v (occChk id t v) with
+        | ok => simp [hv, hm.mp hv, ih]
+        | fail n w =>
+          have : satisfies t v = false := by
+            cases hsat : satisfies t v with
+            | false => rfl
+            | true => rw [hm.mpr hsat] at hv; cases hv
+          simp [hv, this]
 theorem alt_iff : ∀ (ms : Members) (nm : String) (sel : String) (v : Val), domAlt ms sel v = true →
     (walkAlt nm ms sel v = .ok ↔ satisfiesAlt ms sel v = true)
   | .nil, nm, sel, v, _ => by simp [walkAlt, satisfiesAlt]
@@ -1322,242 +1282,6 @@ theorem alt_iff : ∀ (ms : Members) (nm : String) (sel : String) (v : Val), dom
           | false => rfl
         simp only [he', Bool.false_eq_true, if_false] at hd ⊢
         exact alt_iff rest nm sel v hd
-end
-
-
-/-! ### no checker of the guard domain calls itself (termination of the C code, F48 excluded) -/
-
-theorem firstFail_noloop (f : Val → Verdict) (vs : List Val) (h : ∀ v ∈ vs, f v ≠ .selfloop) :
-    firstFail f vs ≠ .selfloop := by
-  induction vs with
-  | nil => simp [firstFail]
-  | cons v vs ih =>
-    have hv := h v (by simp)
-    have ih' := ih (fun x hx => h x (by simp [hx]))
-    simp only [firstFail]
-    cases hf : f v with
-    | ok => simpa using ih'
-    | fail n w => simp
-    | selfloop => exact absurd hf hv
-
-theorem builtinStr_noloop (k : StrKind) (nm : String) (bs : List Nat) (u : Nat) : builtinStr k nm bs u ≠ .selfloop := by
-  cases k <;> simp only [builtinStr] <;> (try split) <;> simp
-
-theorem ofGen_noloop (name : String) (fb cont : Verdict) (g : Gen) (hc : cont ≠ .selfloop)
-    (hf : g = .noTest → fb ≠ .selfloop) : ofGen name fb cont g ≠ .selfloop := by
-  cases g with
-  | pass => simpa [ofGen] using hc
-  | fail w => simp [ofGen]
-  | noTest => simpa [ofGen] using hf rfl
-
-theorem genInt_tests (rs : Cons) (i : Int) (hd : intDom rs i = true) (ht : intTests rs = true) :
-    genInt rs i ≠ .noTest := by
-  rw [(genInt_spec rs i hd).1]
-  simp only [ht, if_true]
-  cases inCons rs i <;> simp
-
-theorem genStr_tests (k : StrKind) (size alpha : Option Cons) (bs : List Nat) (u : Nat)
-    (hd : strDom k size alpha bs u = true) (ht : strTests k size = true) : genStr k size alpha bs u ≠ .noTest := by
-  intro h
-  obtain ⟨hk, hkept⟩ := (genStr_spec k size alpha bs u hd).2.2 h
-  rcases hk with rfl | rfl <;> simp [strTests, hkept] at ht
-
-theorem genSize_tests (rs : Cons) (n : Nat) (hd : sizeDom rs = true) (ht : sizeTests rs = true) :
-    genSize rs n ≠ .noTest := by
-  rw [(genSize_spec rs n hd).1]
-  simp only [ht, if_true]
-  cases inCons rs (n : Int) <;> simp
-
-mutual
-theorem descr_noloop : ∀ (t : Ty) (nm : String) (alias : Bool) (v : Val), domDescr alias t v = true →
-    descrChk nm alias t v ≠ .selfloop
-  | .named n t, nm, alias, v, hd => by
-      have h := descr_noloop t nm true v (by simpa [domDescr] using hd)
-      simpa [descrChk] using h
-  | .bool, nm, alias, v, hd => by cases v <;> simp [descrChk]
-  | .null, nm, alias, v, hd => by cases v <;> simp [descrChk]
-  | .enumerated, nm, alias, v, hd => by cases v <;> simp [descrChk]
-  | .int none, nm, alias, v, hd => by cases v <;> simp [descrChk]
-  | .int (some rs), nm, alias, v, hd => by
-      cases v <;> try (simp [descrChk]; done)
-      rename_i i
-      simp only [domDescr, Bool.and_eq_true] at hd
-      simp only [descrChk]
-      exact ofGen_noloop _ _ _ _ (by simp) (fun h => absurd h (genInt_tests rs i hd.1 hd.2))
-  | .str k size alpha, nm, alias, v, hd => by
-      simp only [descrChk, domDescr] at hd ⊢
-      cases hp : strValue k v with
-      | none => simp
-      | some p =>
-        obtain ⟨bs, u⟩ := p
-        simp only [hp] at hd ⊢
-        simp only [Bool.and_eq_true] at hd
-        by_cases hnc : (size.isNone && alpha.isNone) = true
-        · simp only [hnc, if_true]; exact builtinStr_noloop _ _ _ _
-        · have hnc' : (size.isNone && alpha.isNone) = false := by
-            cases h : (size.isNone && alpha.isNone) with
-            | true => exact absurd h hnc
-            | false => rfl
-          simp only [hnc', Bool.false_eq_true, if_false]
-          have ht : strTests k size = true := by simpa [hnc'] using hd.2
-          exact ofGen_noloop _ _ _ _ (by simp) (fun h => absurd h (genStr_tests k size alpha bs u hd.1 ht))
-  | .seq ms, nm, alias, v, hd => by
-      cases v <;> try (simp [descrChk]; done)
-      rename_i fs
-      simp only [domDescr, Bool.and_eq_true] at hd
-      simpa [descrChk] using seq_noloop ms nm fs hd.2
-  | .set ms, nm, alias, v, hd => by
-      cases v <;> try (simp [descrChk]; done)
-      rename_i fs
-      simp only [domDescr, Bool.and_eq_true] at hd
-      simpa [descrChk] using set_noloop ms nm fs hd.2
-  | .choice ms, nm, alias, v, hd => by
-      cases v <;> try (simp [descrChk]; done)
-      rename_i sel v
-      simp only [domDescr] at hd
-      simpa [descrChk] using alt_noloop ms nm sel v hd
-  | .listOf s size elem, nm, alias, v, hd => by
-      cases v <;> try (simp [descrChk]; done)
-      rename_i vs
-      simp only [domDescr, Bool.and_eq_true, List.all_eq_true] at hd
-      obtain ⟨hsz, hel⟩ := hd
-      have hwalk : firstFail (fun v => memberSel (elemId elem) elem v (occChk (elemId elem) elem v)) vs ≠ .selfloop :=
-        firstFail_noloop _ vs (fun v hv => member_noloop elem (elemId elem) v (hel v hv))
-      simp only [descrChk]
-      cases alias <;> cases size
-      · simpa using hwalk
-      · simp at hsz
-      · simpa using hwalk
-      · rename_i rs
-        simp only [Bool.and_eq_true] at hsz
-        exact ofGen_noloop _ _ _ _ hwalk (fun h => absurd h (genSize_tests rs vs.length hsz.1 hsz.2))
-theorem member_noloop : ∀ (t : Ty) (id : String) (v : Val), domMember t v = true →
-    memberSel id t v (occChk id t v) ≠ .selfloop
-  | .named n t, id, v, hd => by
-      have h := descr_noloop t n false v (by simpa [domMember] using hd)
-      rw [memberSel_noOwn id _ v _ rfl]
-      simpa [occChk] using h
-  | .bool, id, v, hd => by cases v <;> simp [memberSel, occChk]
-  | .null, id, v, hd => by cases v <;> simp [memberSel, occChk]
-  | .enumerated, id, v, hd => by cases v <;> simp [memberSel, occChk]
-  | .int none, id, v, hd => by cases v <;> simp [memberSel, occChk]
-  | .int (some rs), id, v, hd => by
-      cases v <;> try (simp [memberSel, occChk]; done)
-      rename_i i
-      simp only [domMember, Bool.and_eq_true] at hd
-      simp only [memberSel, occChk]
-      apply ofGen_noloop _ _ _ _ (by simp)
-      intro hnt
-      by_cases hu : (fitsLong rs == IntRepr.ulong) = true
-      · have ht : intTests rs = true := by
-          have := hd.2
-          simp only [Bool.or_eq_true, bne_iff_ne, ne_eq] at this
-          rcases this with h | h
-          · simp at hu; exact absurd hu h
-          · exact h
-        exact absurd hnt (genInt_tests rs i hd.1 ht)
-      · have hu' : (fitsLong rs == IntRepr.ulong) = false := by
-          cases h : (fitsLong rs == IntRepr.ulong) with
-          | true => exact absurd h hu
-          | false => rfl
-        simp [hu']
-  | .str k size alpha, id, v, hd => by
-      simp only [memberSel, occChk, domMember] at hd ⊢
-      cases hp : strValue k v with
-      | none => simp
-      | some p =>
-        obtain ⟨bs, u⟩ := p
-        simp only [hp] at hd ⊢
-        split
-        · exact builtinStr_noloop _ _ _ _
-        · exact ofGen_noloop _ _ _ _ (by simp) (fun _ => builtinStr_noloop _ _ _ _)
-  | .seq ms, id, v, hd => by
-      rw [memberSel_noOwn id _ v _ rfl]
-      cases v <;> try (simp [occChk]; done)
-      rename_i fs
-      simp only [domMember, Bool.and_eq_true] at hd
-      simpa [occChk] using seq_noloop ms id fs hd.2
-  | .set ms, id, v, hd => by
-      rw [memberSel_noOwn id _ v _ rfl]
-      cases v <;> try (simp [occChk]; done)
-      rename_i fs
-      simp only [domMember, Bool.and_eq_true] at hd
-      simpa [occChk] using set_noloop ms id fs hd.2
-  | .choice ms, id, v, hd => by
-      rw [memberSel_noOwn id _ v _ rfl]
-      cases v <;> try (simp [occChk]; done)
-      rename_i sel v
-      simp only [domMember] at hd
-      simpa [occChk] using alt_noloop ms id sel v hd
-  | .listOf s size elem, id, v, hd => by
-      cases v <;> try (cases size <;> simp [memberSel, occChk]; done)
-      rename_i vs
-      simp only [domMember, Bool.and_eq_true, List.all_eq_true] at hd
-      obtain ⟨hsz, hel⟩ := hd
-      have hwalk : firstFail (fun v => memberSel (elemId elem) elem v (occChk (elemId elem) elem v)) vs ≠ .selfloop :=
-        firstFail_noloop _ vs (fun v hv => member_noloop elem (elemId elem) v (hel v hv))
-      cases size with
-      | none =>
-        rw [memberSel_noOwn id _ _ _ rfl, occChk_list]
-        exact hwalk
-      | some rs =>
-        rw [memberSel_list, occChk_list]
-        exact ofGen_noloop _ _ _ _ hwalk (fun _ => hwalk)
-theorem seq_noloop : ∀ (ms : Members) (nm : String) (fs : List (String × Val)),
-    domMembers ms fs = true → walkSeq nm ms fs ≠ .selfloop
-  | .nil, nm, fs, _ => by simp [walkSeq]
-  | .cons id opt t rest, nm, fs, hd => by
-      simp only [domMembers, Bool.and_eq_true] at hd
-      obtain ⟨hdm, hdr⟩ := hd
-      simp only [walkSeq]
-      cases hl : lookupField id fs with
-      | none =>
-        cases opt with
-        | false => simp
-        | true => simpa using seq_noloop rest nm fs hdr
-      | some v =>
-        simp only [hl] at hdm
-        have hm := member_noloop t id v hdm
-        by_cases ho : hasOwn t = true
-        · simp only [ho, if_true]
-          cases hv : memberSel id t v (occChk id t v) with
-          | ok => simpa using seq_noloop rest nm fs hdr
-          | fail n w => simp
-          | selfloop => exact absurd hv hm
-        · have ho' : hasOwn t = false := by
-            cases h : hasOwn t with
-            | true => exact absurd h ho
-            | false => rfl
-          rw [memberSel_noOwn id t v _ ho'] at hm
-          simpa [ho'] using hm
-theorem set_noloop : ∀ (ms : Members) (nm : String) (fs : List (String × Val)),
-    domMembers ms fs = true → walkSet nm ms fs ≠ .selfloop
-  | .nil, nm, fs, _ => by simp [walkSet]
-  | .cons id opt t rest, nm, fs, hd => by
-      simp only [domMembers, Bool.and_eq_true] at hd
-      simp only [walkSet]
-      cases hl : lookupField id fs with
-      | none =>
-        cases opt with
-        | false => simp
-        | true => simpa using set_noloop rest nm fs hd.2
-      | some v =>
-        simp only [hl] at hd
-        exact member_noloop t id v hd.1
-theorem alt_noloop : ∀ (ms : Members) (nm : String) (sel : String) (v : Val), domAlt ms sel v = true →
-    walkAlt nm ms sel v ≠ .selfloop
-  | .nil, nm, sel, v, _ => by simp [walkAlt]
-  | .cons id opt t rest, nm, sel, v, hd => by
-      simp only [walkAlt, domAlt] at hd ⊢
-      by_cases he : (id == sel) = true
-      · simp only [he, if_true] at hd ⊢
-        exact member_noloop t id v hd
-      · have he' : (id == sel) = false := by
-          cases h : (id == sel) with
-          | true => exact absurd h he
-          | false => rfl
-        simp only [he', Bool.false_eq_true, if_false] at hd ⊢
-        exact alt_noloop rest nm sel v hd
 end
 
 
